@@ -19,6 +19,7 @@ func init() {
 // roles: which parameter of the functions under ManageChildren carries the
 // observed / desired object maps, derived from the sync entries downwards.
 type childRoles struct {
+	under    map[*ssa.Function]bool // functions reachable from ManageChildren
 	obs, des map[*ssa.Function]int
 	entries  []engine.CallSite // ManageChildren call sites
 }
@@ -29,6 +30,7 @@ func computeChildRoles(p *Program) *childRoles {
 	if mc == nil {
 		return cr
 	}
+	cr.under = p.CG().ReachSet(mc)
 	for _, f := range p.Scanned {
 		for _, cs := range callsTo(f, false, "controller/common.ManageChildren") {
 			cr.entries = append(cr.entries, cs)
@@ -64,6 +66,49 @@ func computeChildRoles(p *Program) *childRoles {
 		}
 	}
 	return cr
+}
+
+// roleOf classifies an object value of f as "observed" or "desired" child
+// (or "" / "mixed"), following parameters back to all static call sites.
+func (cr *childRoles) roleOf(p *Program, f *ssa.Function, v ssa.Value, depth int) string {
+	v = engine.ResolveLocal(v)
+	if oi, ok := cr.obs[f]; ok && elemOf(v, f.Params[oi]) {
+		return "observed"
+	}
+	if di, ok := cr.des[f]; ok && elemOf(v, f.Params[di]) {
+		return "desired"
+	}
+	par, isP := v.(*ssa.Parameter)
+	if !isP || depth > 3 {
+		return ""
+	}
+	idx := -1
+	for i, x := range f.Params {
+		if x == par {
+			idx = i
+		}
+	}
+	role := ""
+	n := 0
+	for _, g := range p.Scanned {
+		for _, b := range g.Blocks {
+			for _, in := range b.Instrs {
+				ci, ok := in.(ssa.CallInstruction)
+				if !ok || engine.StaticFn(ci.Common()) != f || idx >= len(ci.Common().Args) {
+					continue
+				}
+				n++
+				r := cr.roleOf(p, g, ci.Common().Args[idx], depth+1)
+				switch {
+				case n == 1:
+					role = r
+				case r != role:
+					role = "mixed"
+				}
+			}
+		}
+	}
+	return role
 }
 
 // elemOf: v is m[k] or the range value of m.
@@ -142,6 +187,7 @@ func checkC02(r *Report, p *Program) {
 	r02_2(r, p)
 	r02_3(r, p, roles)
 	r02_4(r, p, roles)
+	ownerRefEdits(r, p, "R02.6")
 }
 
 func uidSourceOfDelete(s engine.Sink) (obj ssa.Value, why string) {
@@ -197,21 +243,19 @@ func r02_1(r *Report, p *Program, roles *childRoles) {
 		ok := true
 		f := s.Fn
 		checked := "UID precondition from " + E(obj)
-		if oi, isChild := roles.obs[f]; isChild {
-			// must be an element of the observed map
-			if !elemOf(obj, f.Params[oi]) {
-				ok, why = false, "UID precondition is read from "+E(obj)+", which is not an element of the observed map (param "+f.Params[oi].Name()+")"
-			} else {
+		_, under := roles.under[f]
+		if under {
+			// must be an observed child (possibly handed down through helper parameters)
+			role := roles.roleOf(p, f, obj, 0)
+			if role != "observed" {
+				ok, why = false, "UID precondition is read from "+E(obj)+", which is not (on every call path) an element of the observed map but "+map[string]string{"": "an unrelated object", "desired": "the desired child", "mixed": "the observed child at some call sites and another object at others"}[role]
+			} else if _, kU := elemKey(obj); kU != nil {
 				// R02.5: name and namespace tied to the same key
 				nameObj := objOfGetter(s.Arg(1), "GetName", "Name")
 				var nsObj ssa.Value
-				if rc := callOf(s.Recv()); rc == nil {
-					// receiver is rc.ResourceInterface field of Namespace(...) result
-				}
 				if c := engine.DependsOnCall(s.Recv(), engine.HasSuffix("ResourceClient.Namespace"), nil); c != nil && len(c.Common().Args) == 2 {
 					nsObj = objOfGetter(c.Common().Args[1], "GetNamespace", "Namespace")
 				}
-				_, kU := elemKey(obj)
 				for what, o := range map[string]ssa.Value{"name": nameObj, "namespace": nsObj} {
 					if o == nil {
 						ok, why = false, "delete "+what+" is not read from an object getter"
@@ -221,11 +265,17 @@ func r02_1(r *Report, p *Program, roles *childRoles) {
 						continue
 					}
 					_, k := elemKey(o)
-					if k == nil || kU == nil || !engine.SameValue(k, kU) {
+					if k == nil || !engine.SameValue(k, kU) {
 						ok, why = false, "delete "+what+" comes from "+E(o)+" which is not tied to the key of the object whose UID is used ("+E(obj)+")"
 					}
 				}
 				checked += "; name/namespace tied to the same key"
+			} else {
+				// helper taking the object as parameter: name/namespace must come from that same object
+				nameObj := objOfGetter(s.Arg(1), "GetName", "Name")
+				if nameObj == nil || !engine.SameValue(nameObj, obj) {
+					ok, why = false, "delete name is not read from the object whose UID is used"
+				}
 			}
 		} else if s.Iface == "rev" {
 			nameObj := objOfGetter(s.Arg(1), "GetName", "Name")
@@ -421,8 +471,8 @@ func r02_3(r *Report, p *Program, roles *childRoles) {
 		case engine.DependsOnCall(obj, engine.HasSuffix("controller/common.ApplyUpdate"), nil) != nil:
 			au := engine.DependsOnCall(obj, engine.HasSuffix("controller/common.ApplyUpdate"), nil)
 			ok, why := true, ""
-			if oi, has := roles.obs[f]; has {
-				if !elemOf(au.Common().Args[0], f.Params[oi]) {
+			if roles.under[f] {
+				if roles.roleOf(p, f, au.Common().Args[0], 0) != "observed" {
 					ok, why = false, "ApplyUpdate's base is "+E(au.Common().Args[0])+", not an element of the observed map"
 				}
 			}
